@@ -645,10 +645,42 @@ class SymFloat:
     def _cmp(s, o, f):
         if not isinstance(o, (int, float, SymInt, SymFloat, SymBool)):
             return NotImplemented
+        if isinstance(o, (int, float)) and not isinstance(o, bool) and s.ratview is not None:
+            r = s._rat_cmp_const(o, f)
+            if r is not None:
+                return r
         o = _fl(o)
         if s.intview is not None and o.intview is not None:
             return f(s.intview, o.intview)
+        if s.ratview is not None and o.ratview is not None and s.ratview[1] == o.ratview[1]:
+            # both correctly rounded quotients by the same small constant: order of the numerators
+            if max(abs(s.lo), abs(s.hi), abs(o.lo), abs(o.hi)) * s.ratview[1] < (1 << 40):
+                return f(s.ratview[0], o.ratview[0])
         return None, o
+
+    def _rat_cmp_const(s, c, f):
+        """Exact comparison of fl(J/D) with a constant c, in integers: rounding J/D to a double moves it by
+        less than 2^-40 relative, while J/D and c differ by at least dist(c*D, Z)/D unless J/D == c."""
+        J, D = s.ratview
+        if not math.isfinite(c) or max(abs(s.lo), abs(s.hi)) * D >= (1 << 40):
+            return None
+        cd = Fraction(c) * D
+        if cd.denominator == 1:
+            return f(J, int(cd))
+        lo_n = math.floor(cd)
+        margin = min(cd - lo_n, lo_n + 1 - cd) / D
+        if margin <= Fraction(max(1, abs(Fraction(c)))) / (1 << 36):
+            return None
+        # c*D strictly between lo_n and lo_n+1: compare J with the two integer neighbours
+        probe_lt = f(0, 1)      # is f "less-ish"?
+        probe_eq = f(0, 0)
+        if probe_eq and not probe_lt and not f(1, 0):      # ==
+            return False
+        if not probe_eq and probe_lt and f(1, 0):          # !=
+            return True
+        if probe_lt:                                        # < or <=  : J/D < c  <=>  J <= lo_n
+            return J <= lo_n
+        return J >= lo_n + 1                                # > or >=
 
     def __lt__(s, o):
         r = s._cmp(o, lambda a, b: a < b)
